@@ -160,7 +160,10 @@ class Gen:
 
     def number(self):
         r = self.rng
-        return r.choice(["0", "1", "3", "16", "007", "4294967295", str(r.below(2 ** 32)), str(r.below(100))])
+        if r.chance(1, 8):
+            return r.choice(BOUNDARY_NUMBERS)
+        return r.choice(["0", "1", "3", "16", "007", "4294967295", "2147483647", "2147483648", str(r.below(2 ** 32)),
+                         str(r.below(100))])
 
     def typeref(self, depth=0):
         r = self.rng
@@ -384,6 +387,25 @@ class Gen:
         for d in range(-3, 4):
             res.append(self.render(self.pad_to(toks, limit + d + self.rng.below(3)), tight=True).encode("utf-8") + b"\n")
         return res
+
+
+BOUNDARY_NUMBERS = ["0", "1", "2147483647", "2147483648", "4294967295", "4294967296", "4294967297", "9223372036854775807",
+                    "9223372036854775808", "18446744073709551615", "18446744073709551616", "99999999999999999999",
+                    "1" + "0" * 39, "9" * 40, "00", "007", "0004294967295", "0004294967296", "00000000000000000000001"]
+
+
+def number_positions():
+    """every boundary literal in every position where the grammar takes a number (array size `[N]T`, type argument
+    `m<N>`, nested, in fields, aliases, function arguments/results, first and later union variants, one-variant union)"""
+    out = []
+    for n in BOUNDARY_NUMBERS:
+        for t in ("a = x:[%s]int;", "a = x:m<%s>;", "a = x:m<int,%s>;", "a = x:m<%s,int> y:int;", "a <=> [%s]t;", "a <=> m<[%s]t>;",
+                  "a = x:[][%s]m<k,[%s]v>;", "a<t:Type,n:#> = x:[n]t y:[%s]t;", "f#00000001 x:[%s]int => int;",
+                  "f#00000001 => m<%s>;", "f#00000001 => <=> [%s]int;", "f#00000001 => x:m<%s>;", "a = A x:[%s]int | B;",
+                  "a = A | B x:[%s]int;", "a = A | B [%s]t;", "a = A | B m<%s> | C;", "a = | A m<%s>;", "a = | A x:[%s]t;",
+                  "a = x:[ %s ]int;", "a = x:m< %s >;", "a = x:m<\n%s // c\n>;", "a = x:int;\nb = y:[%s]int;\n"):
+            out.append((t.replace("%s", n)).encode())
+    return out
 
 
 def comment_positions():
